@@ -6,6 +6,7 @@ use std::time::Instant;
 
 pub mod alphabet;
 pub mod par;
+pub mod supervise;
 
 #[derive(Clone, Copy, PartialEq, Eq, Debug)]
 pub enum Tier {
@@ -292,11 +293,39 @@ impl Report {
     }
 }
 
-/// Runs `f`, converting a panic into Err(message). The default panic hook is silenced by main.
+thread_local! {
+    static PANIC_LOC: std::cell::RefCell<String> = std::cell::RefCell::new(String::new());
+}
+
+/// Installed by main: remembers where the last panic of this thread came from (source file
+/// name only, so that keys survive line shifts) and stays quiet.
+pub fn install_panic_hook() {
+    let verbose = std::env::var_os("GMC_PANIC_VERBOSE").is_some();
+    let default = std::panic::take_hook();
+    std::panic::set_hook(Box::new(move |info| {
+        let loc = info
+            .location()
+            .map(|l| {
+                let f = l.file();
+                let short = f.rsplit('/').next().unwrap_or(f);
+                if f.contains("/repo/") || f.contains("crates/") { format!("{short}") } else { format!("dep:{short}") }
+            })
+            .unwrap_or_default();
+        PANIC_LOC.with(|p| *p.borrow_mut() = loc);
+        if verbose {
+            default(info);
+        }
+    }));
+}
+
+/// Runs `f`, converting a panic into Err("<source file>: <message>").
 pub fn catch<T>(f: impl FnOnce() -> T) -> Result<T, String> {
     match std::panic::catch_unwind(std::panic::AssertUnwindSafe(f)) {
         Ok(v) => Ok(v),
-        Err(p) => Err(panic_msg(&p)),
+        Err(p) => {
+            let loc = PANIC_LOC.with(|l| std::mem::take(&mut *l.borrow_mut()));
+            Err(format!("{loc}: {}", panic_msg(&p)))
+        }
     }
 }
 
